@@ -1,275 +1,29 @@
-import MJ.Model.Undef
-import MJ.Model.Slice
+import MJ.Model.UndefBuiltin
 /-!
-# Hand model of the VM sites that consult the undefined behaviour (vm/mod.rs `eval_impl`)
+# Hand model of the VM (vm/mod.rs `eval_impl`) as a machine whose steps consult the mode only by asking
 
-`step m i s = modeGuard m i s >>= fun _ => exec i s` (`Emit` apart: `stepEmit`):
+`stepC ops P i s : Comp St` is one instruction.  It is written as
 
-* `modeGuard` is the **only** place where the mode is consulted; it is a sequence of calls to the
-  table-interpreted helpers of `MJ.Undef` on the kinds of the operands, in the order in which
-  the instruction arm of `eval_impl` calls them (the call list per arm is also extracted from
-  the source, `MJ.Gen.undefVmSites`, and compared in `MJ.C12.vm_sites_as_modelled`);
-* `exec` is the mode-independent rest of the instruction on a small value domain (undefined,
-  silent undefined, none, bool, int, str, list, str-keyed map).  Whatever the model does not
-  cover is the distinguished error `unsupported` (the driver then skips the case; it is still
-  judged by the oracle).
+* the **questions** the instruction arm of `eval_impl` puts to the undefined behaviour, in the
+  order in which the arm calls the helpers (`guardQs`; the call list per arm is also extracted from
+  the source, `MJ.Gen.undefVmSites`, and compared in `MJ.C12.vm_sites_as_modelled`), followed by
+* the mode-independent rest (`exec`), on the value domain of `MJ/Model/UndefVal.lean`;
+
+except for `Emit` (the answer of `Environment::format` decides whether the formatter is called),
+calls of builtins (`callBuiltin`: conversion layer + body, both `Comp`s) and `MergeKwargs` (checks
+and type errors interleaved).  Macro calls, `caller()`, includes of a named template run *inside*
+the machine: a call pushes a return record and continues in the callee's instructions, so the
+callee's questions are asked under the same mode.
+
+`step m i s = (stepC … i s).run m`, so every step depends on the mode only through the helpers by
+construction.  What the model does not cover is the distinguished error `unsupported` (the driver
+skips the case; it is still judged by the oracle); mode-independent operations that are not
+spelled out are the parameters `Ops`.
 
 Tied to the code by the C12 correspondence: the driver runs this model on the *real* instruction
 streams the compiler produced for the generated programs, under all four modes.
 -/
 namespace MJ.Undef
-
-inductive V where
-  | undef | silent | none
-  | bool (b : Bool) | int (i : Int) | str (s : String)
-  | seq (xs : List V) | map (kvs : List (String × V))
-  /-- a lazy iterable (`ValueKind::Iterable`): what slicing, concatenating or repeating a list gives -/
-  | iter (xs : List V)
-
-instance : Inhabited V := ⟨.undef⟩
-
-namespace V
-
-def kind : V → UK
-  | undef => .undef | silent => .silent | _ => .defined
-
-def isUndefined (v : V) : Bool := v.kind.isUndefined
-
-/-- `Value::is_true` -/
-def isTrue : V → Bool
-  | undef | silent | none => false
-  | bool b => b
-  | int i => i != 0
-  | str s => !s.isEmpty
-  | seq xs | iter xs => !xs.isEmpty
-  | map kvs => !kvs.isEmpty
-
-/-- rank of `ValueKind` in the derived `Ord` (see `MJ.Gen.valueKindOrder`) -/
-def kindRank : V → Nat
-  | undef | silent => 0 | none => 1 | bool _ => 2 | int _ => 3 | str _ => 4 | seq _ => 6 | map _ => 7
-  | iter _ => 6      -- `cmp_kind`: iterables share the slot of the sequences
-
-/-- `python_string_debug_fmt` (control characters are outside the model domain) -/
-def reprStr (s : String) : String :=
-  let cs := s.toList
-  let dq := cs.contains '\'' && !cs.contains '"'
-  let q := if dq then "\"" else "'"
-  let esc (c : Char) : String :=
-    if c == '\'' && !dq then "\\'" else if c == '\\' then "\\\\" else String.singleton c
-  q ++ String.join (cs.map esc) ++ q
-
-mutual
-/-- `Debug`-style rendering used inside containers -/
-def repr : V → String
-  | undef | silent => "undefined"
-  | none => "None"
-  | bool true => "True"
-  | bool false => "False"
-  | int i => toString i
-  | str s => reprStr s
-  | seq xs => "[" ++ reprList xs ++ "]"
-  | iter xs => "[" ++ reprList xs ++ "]"
-  | map kvs => "{" ++ reprPairs kvs ++ "}"
-def reprList : List V → String
-  | [] => ""
-  | [x] => repr x
-  | x :: y :: r => repr x ++ ", " ++ reprList (y :: r)
-def reprPairs : List (String × V) → String
-  | [] => ""
-  | [(k, v)] => reprStr k ++ ": " ++ repr v
-  | (k, v) :: y :: r => reprStr k ++ ": " ++ repr v ++ ", " ++ reprPairs (y :: r)
-end
-
-/-- `Display` (what `Emit` writes without auto-escaping, what `~` and `|string` produce) -/
-def display : V → String
-  | undef | silent => ""
-  | str s => s
-  | v => repr v
-
-def asNum? : V → Option Int
-  | bool b => some (if b then 1 else 0)
-  | int i => some i
-  | _ => Option.none
-
-def mapGet (kvs : List (String × V)) (k : String) : Option V :=
-  match kvs.find? (fun p => p.1 == k) with
-  | some p => some p.2
-  | Option.none => Option.none
-
-/-- insert into a key-sorted association list (`BTreeMap::insert`) -/
-def mapInsert (kvs : List (String × V)) (k : String) (v : V) : List (String × V) :=
-  match kvs with
-  | [] => [(k, v)]
-  | (k', v') :: rest =>
-    if k == k' then (k, v) :: rest
-    else if k < k' then (k, v) :: (k', v') :: rest
-    else (k', v') :: mapInsert rest k v
-
-mutual
-/-- `PartialEq for Value` on the model domain -/
-def beq : V → V → Bool
-  | none, none => true
-  | undef, undef | undef, silent | silent, undef | silent, silent => true
-  | str a, str b => a == b
-  | bool a, bool b => a == b
-  | int a, int b => a == b
-  | bool a, int b => (if a then 1 else 0) == b
-  | int a, bool b => a == (if b then 1 else 0)
-  | seq a, seq b | seq a, iter b | iter a, seq b | iter a, iter b => beqList a b
-  | map a, map b => beqPairs a b
-  | _, _ => false
-def beqList : List V → List V → Bool
-  | [], [] => true
-  | x :: xs, y :: ys => beq x y && beqList xs ys
-  | _, _ => false
-/-- both association lists are key-sorted without duplicates, so map equality is pointwise -/
-def beqPairs : List (String × V) → List (String × V) → Bool
-  | [], [] => true
-  | (k, x) :: xs, (k', y) :: ys => k == k' && beq x y && beqPairs xs ys
-  | _, _ => false
-end
-
-def cmpInt (a b : Int) : Ordering := if a < b then .lt else if a = b then .eq else .gt
-def cmpStr (a b : String) : Ordering := if a < b then .lt else if a = b then .eq else .gt
-
-mutual
-/-- `Ord for Value` on the model domain (kind first, then within the kind) -/
-def cmp : V → V → Ordering
-  | a, b =>
-    if kindRank a < kindRank b then .lt
-    else if kindRank a > kindRank b then .gt
-    else match a, b with
-      | str x, str y => cmpStr x y
-      | bool x, bool y => cmpInt (if x then 1 else 0) (if y then 1 else 0)
-      | int x, int y => cmpInt x y
-      | seq x, seq y | seq x, iter y | iter x, seq y | iter x, iter y => cmpList x y
-      | map x, map y => cmpPairs x y
-      | _, _ => .eq
-def cmpList : List V → List V → Ordering
-  | [], [] => .eq
-  | [], _ :: _ => .lt
-  | _ :: _, [] => .gt
-  | x :: xs, y :: ys => match cmp x y with
-    | .eq => cmpList xs ys
-    | o => o
-def cmpPairs : List (String × V) → List (String × V) → Ordering
-  | [], [] => .eq
-  | [], _ :: _ => .lt
-  | _ :: _, [] => .gt
-  | (k, x) :: xs, (k', y) :: ys => match cmpStr k k' with
-    | .eq => match cmp x y with
-      | .eq => cmpPairs xs ys
-      | o => o
-    | o => o
-end
-
-def chars (s : String) : List V := s.toList.map (fun c => str (String.singleton c))
-
-/-- `get_attr_fast` -/
-def getAttr (v : V) (name : String) : Option V :=
-  match v with
-  | map kvs => mapGet kvs name
-  | _ => Option.none
-
-/-- `get_item_opt`; outer `Except` = outside the model -/
-def getItem (base key : V) : Except Err (Option V) :=
-  match base, key with
-  | map kvs, str k => .ok (mapGet kvs k)
-  | map _, _ => .ok Option.none
-  | seq xs, int i | iter xs, int i => .ok (MJ.Slice.index? xs i)
-  | seq xs, bool b | iter xs, bool b => .ok (MJ.Slice.index? xs (if b then 1 else 0))     -- `as_i64` of a bool
-  | seq _, _ | iter _, _ => .ok Option.none
-  | str s, int i => .ok (MJ.Slice.index? (chars s) i)
-  | str s, bool b => .ok (MJ.Slice.index? (chars s) (if b then 1 else 0))
-  | str _, _ => .ok Option.none
-  | _, _ => .ok Option.none
-
-def isInfix (needle hay : List Char) : Bool :=
-  match hay with
-  | [] => needle.isEmpty
-  | _ :: t => needle.isPrefixOf hay || isInfix needle t
-
-/-- `ops::contains(container, value)` -/
-def contains (container value : V) : Except Err Bool :=
-  match container with
-  | undef | silent => .ok false
-  | str s => .ok (isInfix (display value).toList s.toList)
-  | map kvs => match value with
-    | str k => .ok (mapGet kvs k).isSome
-    | _ => .ok false
-  | seq xs | iter xs => .ok (xs.any (fun v => beq v value))
-  | _ => .error .invalidOperation
-
-/-- `Value::try_iter` (mode-independent part of iteration) -/
-def iterItems : V → Except Err (List V)
-  | undef | silent | none => .ok []
-  | seq xs | iter xs => .ok xs
-  | str s => .ok (chars s)
-  | map kvs => .ok (kvs.map (fun p => str p.1))
-  | _ => .error .invalidOperation
-
-def bound? : V → Except Err (Option Int)
-  | none => .ok Option.none
-  | int i => .ok (some i)
-  | bool b => .ok (some (if b then 1 else 0))
-  | _ => .error .invalidOperation
-
-def joinStrs : List V → String
-  | [] => ""
-  | v :: r => display v ++ joinStrs r
-
-/-- `ops::slice` (sequence part from the C09 model) -/
-def slice (a start stop step : V) : Except Err V :=
-  match bound? start with
-  | .error e => .error e
-  | .ok st => match bound? stop with
-    | .error e => .error e
-    | .ok sp => match bound? step with
-      | .error e => .error e
-      | .ok sp' =>
-        if sp' = some 0 then .error .invalidOperation else
-        match a with
-        | undef | silent | none => .ok (seq [])
-        | seq xs | iter xs => match MJ.Slice.slice xs st sp sp' with
-          | .ok (.ok ys) => .ok (iter ys)
-          | .ok .zeroStep => .error .invalidOperation
-          | .panic => .error (.unsupported "slice panic")
-        | str s => match MJ.Slice.slice (chars s) st sp sp' with
-          | .ok (.ok ys) => .ok (str (joinStrs ys))
-          | .ok .zeroStep => .error .invalidOperation
-          | .panic => .error (.unsupported "slice panic")
-        | _ => .error .invalidOperation
-
-inductive ArOp | add | sub | mul
-  deriving DecidableEq, Repr
-
-def repeatList {α : Type} (xs : List α) : Nat → List α
-  | 0 => []
-  | n + 1 => xs ++ repeatList xs n
-
-def arith (op : ArOp) (a b : V) : Except Err V :=
-  match asNum? a, asNum? b with
-  | some x, some y => .ok (int (match op with | .add => x + y | .sub => x - y | .mul => x * y))
-  | _, _ =>
-    match op, a, b with
-    | .add, str x, str y => .ok (str (x ++ y))
-    | .add, seq x, seq y | .add, seq x, iter y | .add, iter x, seq y | .add, iter x, iter y => .ok (iter (x ++ y))
-    | .mul, str x, n | .mul, n, str x =>
-        match asNum? n with
-        | some k => if k < 0 then .error .invalidOperation else .ok (str (String.join (repeatList [x] k.toNat)))
-        | Option.none => .error .invalidOperation
-    | .mul, seq x, n | .mul, n, seq x | .mul, iter x, n | .mul, n, iter x =>
-        match asNum? n with
-        | some k => if k < 0 then .error .invalidOperation else .ok (iter (repeatList x k.toNat))
-        | Option.none => .error .invalidOperation
-    | _, _, _ => .error .invalidOperation
-
-/-- `ops::neg` -/
-def neg : V → Except Err V
-  | int i => .ok (int (-i))
-  | _ => .error .invalidOperation
-
-end V
 
 inductive CmpOp | eq | ne | lt | lte | gt | gte | in_ | notIn
   deriving DecidableEq, Repr
@@ -280,31 +34,72 @@ inductive Instr where
   | getAttr (n : String) | getItem | slice
   | loadConst (v : V)
   | buildList (n : Nat) | buildMap (n : Nat)
-  | arith (op : V.ArOp) | neg
   | buildListDyn                   -- BuildList(None): the count is on the stack
+  | buildKwargs (n : Nat) | mergeKwargs (n : Nat)
+  | unpackList (n : Nat)
+  | arith (op : V.ArOp) | neg
+  | binop (name : String)          -- Div IntDiv Rem Pow
   | cmp (op : CmpOp)               -- Eq Ne Lt Lte Gt Gte (op_binop!) and In
   | cmpPreserve (op : CmpOp)       -- CompareAndPreserve
   | not | stringConcat
   | applyFilter (name : String) (argc : Nat)
   | performTest (name : String) (argc : Nat)
-  | pushLoop | iterate (t : Nat) | pushDidNotIterate | popFrame | popLoopFrame | pushWith
+  | callFunction (name : String) (argc : Nat)
+  | callMethod (name : String) (argc : Nat)
+  | callObject (argc : Nat)
+  | pushLoop (flags : Nat) | iterate (t : Nat) | pushDidNotIterate | popFrame | popLoopFrame | pushWith
   | jump (t : Nat) | jumpIfFalse (t : Nat) | jumpIfFalseOrPop (t : Nat) | jumpIfTrueOrPop (t : Nat)
   | beginCapture | endCapture
   | dupTop | discardTop | swap
+  | isUndefined | enclose (n : String) | getClosure
+  | buildMacro (name : String) (offset : Nat) (flags : Nat) | ret
+  | include_ (ignoreMissing : Bool)
   | unsupported (name : String)
+
+structure LoopSt where
+  /-- all items of the iterable -/
+  items : List V
+  /-- number of `next()` calls so far (`Loop::idx` + 1) -/
+  calls : Nat := 0
+  /-- the iterator knew its length (lists, maps) -/
+  lenKnown : Bool := true
+  withVar : Bool := true
+  lastChanged : Option (List V) := Option.none
 
 structure Frame where
   locals : List (String × V) := []
-  /-- remaining items and the number of `next()` calls so far, for a loop frame -/
-  loop : Option (List V × Nat) := Option.none
+  loop : Option LoopSt := Option.none
+  /-- closure receiving the stores of this frame (`Frame::closure`) -/
+  closure : Option Nat := Option.none
+  /-- closure a macro body reads from (`Frame::closure_context`) -/
+  closureCtx : Option Nat := Option.none
+
+inductive RetKind | macroCall | includeCall
+  deriving DecidableEq, Repr
+
+/-- what a nested evaluation returns to -/
+structure Ret where
+  kind : RetKind
+  code : Nat
+  pc : Nat
+  stack : List V
+  frames : List Frame := []
+  outs : List (List String) := []
+  closure : Option Nat := Option.none
 
 structure St where
+  /-- which instruction list is running -/
+  code : Nat := 0
   pc : Nat := 0
   stack : List V := []
   frames : List Frame := [{}]        -- innermost first; the last one is the base frame
   /-- output chunks, newest first; one list per open capture (innermost first) -/
   outs : List (List String) := [[]]
   ctx : List (String × V) := []
+  /-- `State::closures` -/
+  closures : List (List (String × V)) := []
+  /-- pending returns of macro calls / includes, innermost first -/
+  calls : List Ret := []
   /-- 0 = default formatter; otherwise `Environment::set_formatter` was used and `Emit` goes through
       `Environment::format`: 1 = a formatter delegating to `escape_formatter`, 2 = one that makes
       every value visible (undefined → `U`, none → `N`), 3 = a delegating one counting its calls -/
@@ -312,19 +107,37 @@ structure St where
   /-- number of times the custom formatter was invoked -/
   fmtCalls : Nat := 0
 
-namespace St
-def lookupFrames : List Frame → String → Option V
-  | [], _ => Option.none
-  | f :: r, n => match V.mapGet f.locals n with
-    | some v => some v
-    | Option.none => lookupFrames r n
+/-- the instruction lists of a render: `codes[0]` is the template, the others are templates it
+    can include by name -/
+structure Prog where
+  codes : Array (Array Instr)
+  templates : List (String × Nat) := []
 
-/-- `State::lookup` for names that are neither `loop` nor a global of the environment
-    (the generator does not use those) -/
-def lookup (s : St) (n : String) : V :=
-  match lookupFrames s.frames n with
-  | some v => v
-  | Option.none => (V.mapGet s.ctx n).getD .undef
+def globalFunctions : List String := ["range", "dict", "debug", "namespace"]
+
+namespace St
+def listGet (kvs : List (String × V)) (n : String) : Option V := V.mapGet kvs n
+
+/-- `Context::load`, frame by frame from the innermost: locals, the `loop` variable, the closure
+    a macro body reads from -/
+def lookupFrames (closures : List (List (String × V))) : List Frame → Nat → String → Option V
+  | [], _, _ => Option.none
+  | f :: r, height, n =>
+    match listGet f.locals n with
+    | some v => some v
+    | Option.none =>
+      match (if n == "loop" then f.loop else Option.none) with
+      | some l => if l.withVar then some (.loopRef height) else lookupFrames closures r (height - 1) n
+      | Option.none =>
+        match f.closureCtx.bind (fun id => closures[id]?.bind (fun c => listGet c n)) with
+        | some v => some v
+        | Option.none => lookupFrames closures r (height - 1) n
+
+/-- `State::lookup` apart from the globals of the environment -/
+def lookup? (s : St) (n : String) : Option V :=
+  match lookupFrames s.closures s.frames s.frames.length n with
+  | some v => some v
+  | Option.none => listGet s.ctx n
 
 def write (s : St) (chunk : String) : St :=
   match s.outs with
@@ -341,157 +154,25 @@ def observed (s : St) : String :=
   if s.formatter = 3 then s.output ++ "#" ++ toString s.fmtCalls else s.output
 
 def next (s : St) : St := { s with pc := s.pc + 1 }
+
+/-- the loop state the `loop` object of height `h` refers to -/
+def loopAt (s : St) (h : Nat) : Option LoopSt :=
+  (s.frames[s.frames.length - h]?).bind (fun f => f.loop)
+
+def setLoopAt (s : St) (h : Nat) (l : LoopSt) : St :=
+  { s with frames := s.frames.modify (s.frames.length - h) (fun f => { f with loop := some l }) }
 end St
 
-/-- arguments of a filter/test call: the top `argc` stack entries, first argument deepest -/
+/-- arguments of a call: the top `argc` stack entries, first argument deepest -/
 def callArgs (stack : List V) (argc : Nat) : Option (List V × List V) :=
   if argc ≤ stack.length then some ((stack.take argc).reverse, stack.drop argc) else Option.none
 
-def seqChks : List (Except Err Unit) → Except Err Unit
-  | [] => .ok ()
-  | .ok _ :: r => seqChks r
-  | .error e :: _ => .error e
+def popN (n : Nat) (st : List V) : Option (List V × List V) := callArgs st n
 
-/-- `.map_err(|err| Error::new(InvalidOperation, …).with_source(err))` -/
-def mapInvalid : Except Err Unit → Except Err Unit
-  | .ok u => .ok u
-  | .error _ => .error .invalidOperation
-
-def minBy (xs : List V) (gt : Bool) : V :=
-  match xs with
-  | [] => .undef
-  | x :: r => r.foldl (fun a y => if (V.cmp y a == (if gt then .gt else .lt)) then y else a) x
-
-def sumInts : List V → Int → Except Err V
-  | [], acc => .ok (.int acc)
-  | .undef :: r, acc | .silent :: r, acc => sumInts r acc
-  | .int i :: r, acc => sumInts r (acc + i)
-  | .bool _ :: _, _ => .error (.unsupported "sum of bool")
-  | _ :: _, _ => .error .invalidOperation
-
-def joinWith (sep : String) : List V → String
-  | [] => ""
-  | [x] => V.display x
-  | x :: y :: r => V.display x ++ sep ++ joinWith sep (y :: r)
-
-/-- mode-dependent part of the modelled builtin filters -/
-def filterGuard (m : Mode) (name : String) (args : List V) : Except Err Unit :=
-  match name, args with
-  | "default", [_, _, lax] | "d", [_, _, lax] => isTrueChk m lax.kind
-  | "int", [v] | "float", [v] =>
-      match v with
-      | .undef | .silent | .none => assertNotUndef m v.kind
-      | _ => .ok ()
-  | "string", [v] => assertNotUndef m v.kind
-  | "bool", [v] => isTrueChk m v.kind
-  | "list", [v] | "min", [v] | "max", [v] => mapInvalid (tryIterChk m v.kind)
-  | "sum", [v] => tryIterChk m v.kind
-  | "trim", [v] => assertNotUndef m v.kind                          -- `StringInput` argument conversion
-  | "upper", [v] | "lower", [v] => assertNotUndef m v.kind       -- `Cow<str>` argument conversion
-  | "attr", [v, _] =>                                               -- after the `fix:` commit
-      match V.getItem v (args.getD 1 .undef) with
-      | .ok Option.none => handleUndefined m v.isUndefined
-      | _ => .ok ()
-  | _, _ => .ok ()
-
-def asciiUpper (s : String) : String := String.ofList (s.toList.map Char.toUpper)
-def asciiLower (s : String) : String := String.ofList (s.toList.map Char.toLower)
-
-/-- `value_to_string_cow` -/
-def toStringCow (v : V) : String := V.display v
-
-def filterExec (name : String) (args : List V) : Except Err V :=
-  match name, args with
-  | "default", [v] | "d", [v] => .ok (if v.isUndefined then .str "" else v)
-  | "default", [v, o] | "d", [v, o] => .ok (if v.isUndefined then o else v)
-  | "default", [v, o, lax] | "d", [v, o, lax] =>
-      .ok (if v.isUndefined || (lax.isTrue && !v.isTrue) then o else v)
-  | "int", [v] =>
-      match v with
-      | .undef | .silent | .none => .ok (.int 0)
-      | .bool b => .ok (.int (if b then 1 else 0))
-      | .int i => .ok (.int i)
-      | .str s => match s.toInt? with
-        | some i => .ok (.int i)
-        | Option.none => .error (.unsupported "int of non-integer string")
-      | _ => .error .invalidOperation
-  | "string", [v] => .ok (match v with | .str s => .str s | v => .str (V.display v))
-  | "bool", [v] => .ok (.bool v.isTrue)
-  | "list", [v] => match V.iterItems v with
-      | .ok xs => .ok (.seq xs)
-      | .error _ => .error .invalidOperation
-  | "min", [v] => match V.iterItems v with
-      | .ok xs => .ok (minBy xs false)
-      | .error _ => .error .invalidOperation
-  | "max", [v] => match V.iterItems v with
-      | .ok xs => .ok (minBy xs true)
-      | .error _ => .error .invalidOperation
-  | "sum", [v] => match V.iterItems v with
-      | .ok xs => sumInts xs 0
-      | .error e => .error e
-  | "first", [v] => match v with
-      | .str s => .ok ((V.chars s).head?.getD .undef)
-      | .seq xs | .iter xs => .ok (xs.head?.getD .undef)
-      | .map kvs => .ok ((kvs.head?.map (fun p => V.str p.1)).getD .undef)
-      | _ => .error .invalidOperation
-  | "last", [v] => match v with
-      | .str s => .ok ((V.chars s).getLast?.getD .undef)
-      | .seq xs | .iter xs => .ok (xs.getLast?.getD .undef)
-      | _ => .error .invalidOperation
-  | "join", [v] => match v with
-      | .undef | .silent | .none | .seq _ | .iter _ | .str _ | .map _ => match V.iterItems v with
-        | .ok xs => .ok (.str (joinWith "" xs))
-        | .error _ => .error .invalidOperation
-      | _ => .error .invalidOperation
-  | "join", [v, sep] => match V.iterItems v with
-      | .ok xs => .ok (.str (joinWith (match sep with | .undef | .silent | .none => "" | x => toStringCow x) xs))
-      | .error _ => .error .invalidOperation
-  | "trim", [v] => .ok (.str (toStringCow v).trimAscii.toString)
-  | "upper", [v] => .ok (.str (asciiUpper (toStringCow v)))
-  | "lower", [v] => .ok (.str (asciiLower (toStringCow v)))
-  | "length", [v] | "count", [v] =>
-      match v with
-      | .str s => .ok (.int s.length)
-      | .seq xs | .iter xs => .ok (.int xs.length)
-      | .map kvs => .ok (.int kvs.length)
-      | _ => .error .invalidOperation
-  | "attr", [v, k] =>
-      match V.getItem v k with
-      | .error e => .error e
-      | .ok (some x) => .ok x
-      | .ok Option.none => .ok .undef
-  | n, _ => .error (.unsupported ("filter " ++ n))
-
-def testGuard (m : Mode) (name : String) (args : List V) : Except Err Unit :=
-  match name, args with
-  | "in", [_, o] => assertIterable m o.kind
-  | _, _ => .ok ()
-
-def testExec (name : String) (args : List V) : Except Err Bool :=
-  match name, args with
-  | "defined", [v] => .ok (!v.isUndefined)
-  | "undefined", [v] => .ok v.isUndefined
-  | "none", [v] => .ok (match v with | .none => true | _ => false)
-  | "true", [v] => .ok (match v with | .bool true => true | _ => false)
-  | "false", [v] => .ok (match v with | .bool false => true | _ => false)
-  | "eq", [a, b] | "equalto", [a, b] | "==", [a, b] => .ok (V.beq a b)
-  | "ne", [a, b] | "!=", [a, b] => .ok (!V.beq a b)
-  | "lt", [a, b] | "lessthan", [a, b] | "<", [a, b] => .ok (V.cmp a b == .lt)
-  | "le", [a, b] | "<=", [a, b] => .ok (V.cmp a b != .gt)
-  | "gt", [a, b] | "greaterthan", [a, b] | ">", [a, b] => .ok (V.cmp a b == .gt)
-  | "ge", [a, b] | ">=", [a, b] => .ok (V.cmp a b != .lt)
-  | "in", [v, o] => .ok (match V.contains o v with | .ok b => b | .error _ => false)
-  | "string", [v] => .ok (match v with | .str _ => true | _ => false)
-  | "number", [v] | "integer", [v] | "int", [v] => .ok (match v with | .int _ => true | _ => false)
-  | "boolean", [v] => .ok (match v with | .bool _ => true | _ => false)
-  | "sequence", [v] => .ok (match v with | .seq _ => true | _ => false)
-  | "mapping", [v] => .ok (match v with | .map _ => true | _ => false)
-  | n, _ => .error (.unsupported ("test " ++ n))
-
-def cmpGuard (m : Mode) (op : CmpOp) (lhs rhs : V) : Except Err Unit :=
+def cmpQs (op : CmpOp) (lhs rhs : V) : List HQ :=
   match op with
-  | .in_ | .notIn => seqChks [assertIterable m rhs.kind, assertNotUndef m lhs.kind]
-  | _ => seqChks [assertNotUndef m lhs.kind, assertNotUndef m rhs.kind]
+  | .in_ | .notIn => [.assertIterable rhs.kind, .assertNotUndef lhs.kind]
+  | _ => [.assertNotUndef lhs.kind, .assertNotUndef rhs.kind]
 
 def cmpExec (op : CmpOp) (lhs rhs : V) : Except Err Bool :=
   match op with
@@ -506,57 +187,166 @@ def cmpExec (op : CmpOp) (lhs rhs : V) : Except Err Bool :=
     | .ok b => .ok (!b)
     | .error e => .error e
 
-/-- **the mode-dependent part of every instruction** (operands named as in `eval_impl`).
+/-- attributes of the `loop` object (`Loop::get_value_by_str`) -/
+def loopAttr (l : LoopSt) (n : String) : Except Err (Option V) :=
+  if l.calls = 0 then .ok (some .undef) else
+  let idx := l.calls - 1
+  let len := l.items.length
+  let needLen (v : V) : Except Err (Option V) :=
+    if l.lenKnown then .ok (some v) else .error (.unsupported "loop over an iterator of unknown length")
+  match n with
+  | "index" => .ok (some (.int (idx + 1)))
+  | "index0" => .ok (some (.int idx))
+  | "first" => .ok (some (.bool (idx == 0)))
+  | "length" => needLen (.int len)
+  | "revindex" => needLen (.int (len - idx))
+  | "revindex0" => needLen (.int (len - idx - 1))
+  | "last" => needLen (.bool (len == 0 || idx == len - 1))
+  | "depth" => .ok (some (.int 1))
+  | "depth0" => .ok (some (.int 0))
+  | "previtem" => .ok (some (if idx = 0 then .undef else (l.items[idx - 1]?).getD .undef))
+  | "nextitem" => .ok (some ((l.items[idx + 1]?).getD .undef))
+  | _ => .ok Option.none
+
+/-- **the questions an instruction puts to the undefined behaviour** (operands named as in
+    `eval_impl`), for the instructions that ask a fixed list and then run mode-independently.
     A stack that is too short is left to `exec` to report. -/
-def modeGuard (m : Mode) (i : Instr) (s : St) : Except Err Unit :=
+def guardQs (i : Instr) (s : St) : List HQ :=
   match i, s.stack with
   | .getAttr n, a :: _ =>
-      match V.getAttr a n with
-      | some _ => .ok ()
-      | Option.none => handleUndefined m a.isUndefined
+      match a with
+      | .loopRef h =>
+          match (s.loopAt h).map (fun l => loopAttr l n) with
+          | some (.ok Option.none) => [.handleUndefined false]
+          | _ => []
+      | a => match V.getAttr a n with
+        | some _ => []
+        | Option.none => [.handleUndefined a.isUndefined]
   | .getItem, a :: b :: _ =>                       -- a = key (popped first), b = base
       match V.getItem b a with
-      | .ok Option.none => handleUndefined m b.isUndefined
-      | _ => .ok ()
-  | .slice, _ :: _ :: _ :: a :: _ => sliceChk m a.kind
+      | .ok Option.none => [.handleUndefined b.isUndefined]
+      | _ => []
+  | .slice, _ :: _ :: _ :: a :: _ => [.slice a.kind]
   | .cmp .in_, a :: b :: _ =>                      -- `In`: a = container (popped first), b = value
-      seqChks [assertIterable m a.kind, assertNotUndef m b.kind]
-  | .cmp op, b :: a :: _ => cmpGuard m op a b      -- op_binop!: b popped first
-  | .cmpPreserve op, b :: a :: _ => cmpGuard m op a b
-  | .not, a :: _ => isTrueChk m a.kind
-  | .stringConcat, a :: b :: _ => seqChks [assertNotUndef m b.kind, assertNotUndef m a.kind]
-  | .jumpIfFalse _, a :: _ => isTrueChk m a.kind
-  | .jumpIfFalseOrPop _, a :: _ => isTrueChk m a.kind
-  | .jumpIfTrueOrPop _, a :: _ => isTrueChk m a.kind
-  | .pushLoop, a :: _ => tryIterChk m a.kind
-  | .applyFilter name argc, st =>
-      match callArgs st argc with
-      | some (args, _) => filterGuard m name args
-      | Option.none => .ok ()
-  | .performTest name argc, st =>
-      match callArgs st argc with
-      | some (args, _) => testGuard m name args
-      | Option.none => .ok ()
-  | _, _ => .ok ()
+      [.assertIterable a.kind, .assertNotUndef b.kind]
+  | .cmp op, b :: a :: _ => cmpQs op a b           -- op_binop!: b popped first
+  | .cmpPreserve op, b :: a :: _ => cmpQs op a b
+  | .not, a :: _ => [.isTrue a.kind]
+  | .stringConcat, a :: b :: _ => [.assertNotUndef b.kind, .assertNotUndef a.kind]
+  | .jumpIfFalse _, a :: _ => [.isTrue a.kind]
+  | .jumpIfFalseOrPop _, a :: _ => [.isTrue a.kind]
+  | .jumpIfTrueOrPop _, a :: _ => [.isTrue a.kind]
+  | .pushLoop _, a :: _ => [.tryIter a.kind]
+  | _, _ => []
 
-def popN (n : Nat) (st : List V) : Option (List V × List V) := callArgs st n
-
-/-- `BuildMap`: pairs are inserted in source order (a later duplicate key wins) -/
+/-- `BuildMap` / `BuildKwargs`: pairs are inserted in source order (a later duplicate key wins) -/
 def buildMapFrom (acc : List (String × V)) : List V → Option (List (String × V))
   | [] => some acc
   | .str k :: v :: r => buildMapFrom (V.mapInsert acc k v) r
   | _ => Option.none
 
+/-- how many of the topmost operands the instruction looks inside (macro objects, the loop object
+    and keyword arguments are only passed around by the model) -/
+def inspects : Instr → Nat
+  | .emit | .neg | .not | .jumpIfFalse _ | .jumpIfFalseOrPop _ | .jumpIfTrueOrPop _ | .pushLoop _ | .unpackList _ => 1
+  | .getItem | .arith _ | .binop _ | .cmp _ | .cmpPreserve _ | .stringConcat => 2
+  | .slice => 4
+  | .buildList n => n
+  | .buildMap n => 2 * n
+  | _ => 0
+
+/-- `Macro::prepare_args` -/
+def macroArgs (spec : List String) (callerRef : Bool) (args : List V) : Except Err (List V × Option V) :=
+  let (pos, kw) : List V × List (String × V) :=
+    match args.getLast? with
+    | some (.kwargs kvs) => (args.dropLast, kvs)
+    | _ => (args, [])
+  if pos.length > spec.length then .error (.other "TooManyArguments") else
+  let rec bind : List String → Nat → List V → List String → Except Err (List V × List String)
+    | [], _, acc, used => .ok (acc.reverse, used)
+    | n :: r, idx, acc, used =>
+      match pos[idx]?, V.mapGet kw n with
+      | some _, some _ => .error (.other "TooManyArguments")
+      | some a, Option.none => bind r (idx + 1) (a :: acc) used
+      | Option.none, some k => bind r (idx + 1) (k :: acc) (n :: used)
+      | Option.none, Option.none => bind r (idx + 1) (.undef :: acc) used
+  match bind spec 0 [] [] with
+  | .error e => .error e
+  | .ok (vals, used) =>
+    let used := if callerRef then "caller" :: used else used
+    if kw.any (fun p => !used.contains p.1) then .error (.other "TooManyArguments")
+    else .ok (vals, if callerRef then some ((V.mapGet kw "caller").getD .undef) else Option.none)
+
+/-- `Macro::call` → `eval_macro`: a fresh context (base frame + closure frame), the arguments as
+    the initial stack, an output of its own; the `Return` instruction comes back -/
+def enterMacro (s : St) (rest : List V) (code offset : Nat) (closure : Option Nat) (vals : List V)
+    (caller : Option V) : St :=
+  { s with
+    calls := { kind := .macroCall, code := s.code, pc := s.pc + 1, stack := rest, frames := s.frames, outs := s.outs } :: s.calls
+    code := code, pc := offset
+    stack := vals.reverse
+    frames := [{ closureCtx := closure, locals := match caller with | some c => [("caller", c)] | Option.none => [] }, {}]
+    outs := [[]] }
+
+/-- calling the value `f` with `args` (`Value::call`) -/
+def callValue (ops : Ops) (s : St) (rest : List V) (f : V) (args : List V) : Except Err St :=
+  match f with
+  | .mac _ spec code offset closure callerRef =>
+      match macroArgs spec callerRef args with
+      | .error e => .error e
+      | .ok (vals, caller) => .ok (enterMacro s rest code offset closure vals caller)
+  | .loopRef _ => .error (.unsupported "loop recursion")
+  | .kwargs _ => .error (.unsupported "call of keyword arguments")
+  | f => match ops.callValue f args with
+    | .error e => .error e
+    | .ok v => .ok { s with stack := v :: rest }.next
+
+/-- methods of the `loop` object -/
+def loopMethod (s : St) (rest : List V) (h : Nat) (name : String) (args : List V) : Except Err St :=
+  match s.loopAt h with
+  | Option.none => .error (.unsupported "loop object outside its loop")
+  | some l =>
+    if args.any V.isOpaque then .error (.unsupported "opaque argument") else
+    if name == "cycle" then
+      match args with
+      | [] => .error (.other "MissingArgument")
+      | _ => .ok { s with stack := ((args[(l.calls - 1) % args.length]?).getD .undef) :: rest }.next
+    else if name == "changed" then
+      let same := match l.lastChanged with
+        | some old => V.beqList old args
+        | Option.none => false
+      if same then .ok { s with stack := .bool false :: rest }.next
+      else .ok { (s.setLoopAt h { l with lastChanged := some args }) with stack := .bool true :: rest }.next
+    else .error (.other "UnknownMethod")
+
 /-- the mode-independent rest of every instruction -/
-def exec (i : Instr) (s : St) : Except Err St :=
+def exec (ops : Ops) (P : Prog) (i : Instr) (s : St) : Except Err St :=
   match i, s.stack with
   | .emitRaw t, _ => .ok (s.write t).next
   | .storeLocal n, v :: r =>
       match s.frames with
-      | f :: fr => .ok { s with stack := r, frames := { f with locals := (n, v) :: f.locals.filter (fun p => p.1 != n) } :: fr }.next
+      | f :: fr =>
+        let closures := match f.closure with
+          | some id => s.closures.modify id (fun c => (n, v) :: c.filter (fun p => p.1 != n))
+          | Option.none => s.closures
+        .ok { s with stack := r, closures := closures,
+                     frames := { f with locals := (n, v) :: f.locals.filter (fun p => p.1 != n) } :: fr }.next
       | [] => .error .stack
-  | .lookup n, st => .ok { s with stack := s.lookup n :: st }.next
-  | .getAttr n, a :: r => .ok { s with stack := ((V.getAttr a n).getD .undef) :: r }.next
+  | .lookup n, st =>
+      match s.lookup? n with
+      | some v => .ok { s with stack := v :: st }.next
+      | Option.none =>
+        if globalFunctions.contains n then .error (.unsupported "a global function as a value")
+        else .ok { s with stack := .undef :: st }.next
+  | .getAttr n, a :: r =>
+      match a with
+      | .loopRef h => match s.loopAt h with
+        | Option.none => .error (.unsupported "loop object outside its loop")
+        | some l => match loopAttr l n with
+          | .error e => .error e
+          | .ok x => .ok { s with stack := (x.getD .undef) :: r }.next
+      | .mac .. | .kwargs _ => .error (.unsupported "attribute of a macro")
+      | a => .ok { s with stack := ((V.getAttr a n).getD .undef) :: r }.next
   | .getItem, a :: b :: r =>
       match V.getItem b a with
       | .error e => .error e
@@ -570,22 +360,39 @@ def exec (i : Instr) (s : St) : Except Err St :=
       match popN n st with
       | some (xs, r) => .ok { s with stack := .seq xs :: r }.next
       | Option.none => .error .stack
+  | .buildListDyn, .int n :: st =>
+      match popN n.toNat st with
+      | some (xs, r) => if xs.any V.isOpaque then .error (.unsupported "opaque operand") else .ok { s with stack := .seq xs :: r }.next
+      | Option.none => .error .stack
   | .buildMap n, st =>
       match popN (2 * n) st with
       | some (xs, r) => match buildMapFrom [] xs with
         | some kvs => .ok { s with stack := .map kvs :: r }.next
         | Option.none => .error (.unsupported "non-string map key")
       | Option.none => .error .stack
-  | .neg, a :: r =>
-      match V.neg a with
-      | .error e => .error e
-      | .ok v => .ok { s with stack := v :: r }.next
-  | .buildListDyn, .int n :: st =>
-      match popN n.toNat st with
-      | some (xs, r) => .ok { s with stack := .seq xs :: r }.next
+  | .buildKwargs n, st =>
+      match popN (2 * n) st with
+      | some (xs, r) => match buildMapFrom [] xs with
+        | some kvs => .ok { s with stack := .kwargs kvs :: r }.next
+        | Option.none => .error (.unsupported "non-string kwargs key")
       | Option.none => .error .stack
+  | .unpackList n, v :: r =>
+      match v with
+      | .seq xs | .iter xs =>
+          if xs.length = n then .ok { s with stack := xs ++ r }.next else .error (.other "CannotUnpack")
+      | .map kvs => if kvs.length = n then .ok { s with stack := kvs.map (fun (p : String × V) => V.str p.1) ++ r }.next
+                    else .error (.other "CannotUnpack")
+      | _ => .error (.other "CannotUnpack")
   | .arith op, b :: a :: r =>
       match V.arith op a b with
+      | .error e => .error e
+      | .ok v => .ok { s with stack := v :: r }.next
+  | .binop name, b :: a :: r =>
+      match ops.binop name a b with
+      | .error e => .error e
+      | .ok v => .ok { s with stack := v :: r }.next
+  | .neg, a :: r =>
+      match V.neg a with
       | .error e => .error e
       | .ok v => .ok { s with stack := v :: r }.next
   | .cmp .in_, a :: b :: r =>
@@ -602,34 +409,28 @@ def exec (i : Instr) (s : St) : Except Err St :=
       | .ok x => .ok { s with stack := .bool x :: b :: r }.next
   | .not, a :: r => .ok { s with stack := .bool (!a.isTrue) :: r }.next
   | .stringConcat, a :: b :: r => .ok { s with stack := .str (V.display b ++ V.display a) :: r }.next
-  | .applyFilter name argc, st =>
-      match callArgs st argc with
-      | some (args, r) => match filterExec name args with
-        | .error e => .error e
-        | .ok v => .ok { s with stack := v :: r }.next
-      | Option.none => .error .stack
-  | .performTest name argc, st =>
-      match callArgs st argc with
-      | some (args, r) => match testExec name args with
-        | .error e => .error e
-        | .ok v => .ok { s with stack := .bool v :: r }.next
-      | Option.none => .error .stack
-  | .pushLoop, a :: r =>
+  | .pushLoop flags, a :: r =>
+      if flags / 2 % 2 = 1 then .error (.unsupported "recursive loop") else
       match V.iterItems a with
       | .error e => .error e
-      | .ok xs => .ok { s with stack := r, frames := { loop := some (xs, 0) } :: s.frames }.next
+      | .ok xs =>
+        let lenKnown := match a with | .str _ => false | _ => true
+        .ok { s with stack := r,
+                     frames := { loop := some { items := xs, withVar := flags % 2 = 1, lenKnown := lenKnown } } :: s.frames }.next
   | .iterate t, st =>
       match s.frames with
       | f :: fr => match f.loop with
-        | some (x :: xs, n) =>       -- `next_loop_item` clears the locals: every iteration is a scope of its own
-            .ok { s with stack := x :: st, frames := { locals := [], loop := some (xs, n + 1) } :: fr }.next
-        | some ([], n) => .ok { s with pc := t, frames := { f with loop := some ([], n + 1) } :: fr }
+        | some l =>
+          match l.items[l.calls]? with
+          | some x =>        -- `next_loop_item` clears the locals and the closure: every iteration is a scope of its own
+              .ok { s with stack := x :: st, frames := { loop := some { l with calls := l.calls + 1 }, closureCtx := f.closureCtx } :: fr }.next
+          | Option.none => .ok { s with pc := t, frames := { f with loop := some { l with calls := l.calls + 1 } } :: fr }
         | Option.none => .error .stack
       | [] => .error .stack
   | .pushDidNotIterate, st =>
       match s.frames with
       | f :: _ => match f.loop with
-        | some (_, n) => .ok { s with stack := .bool (n ≤ 1) :: st }.next
+        | some l => .ok { s with stack := .bool (l.items.isEmpty) :: st }.next
         | Option.none => .error .stack
       | [] => .error .stack
   | .popFrame, _ | .popLoopFrame, _ =>
@@ -649,6 +450,78 @@ def exec (i : Instr) (s : St) : Except Err St :=
   | .dupTop, a :: r => .ok { s with stack := a :: a :: r }.next
   | .discardTop, _ :: r => .ok { s with stack := r }.next
   | .swap, a :: b :: r => .ok { s with stack := b :: a :: r }.next
+  | .isUndefined, a :: r => .ok { s with stack := .bool a.isUndefined :: r }.next
+  | .enclose n, _ =>
+      match s.frames with
+      | f :: fr =>
+        let (id, closures) := match f.closure with
+          | some id => (id, s.closures)
+          | Option.none => (s.closures.length, s.closures ++ [[]])
+        let has := ((closures[id]?).getD []).any (fun (p : String × V) => p.1 == n)
+        let closures := if has then closures
+          else closures.modify id (fun c => (n, (s.lookup? n).getD .undef) :: c)
+        .ok { s with closures := closures, frames := { f with closure := some id } :: fr }.next
+      | [] => .error .stack
+  | .getClosure, st =>
+      match s.frames with
+      | f :: _ => .ok { s with stack := (match f.closure with | some id => V.int id | Option.none => .undef) :: st }.next
+      | [] => .error .stack
+  | .buildMacro name offset flags, .seq spec :: c :: r =>
+      let names := spec.filterMap (fun v => match v with | .str n => some n | _ => Option.none)
+      if names.length != spec.length then .error (.unsupported "macro parameter that is not a name") else
+      let closure := match c with | .int id => some id.toNat | _ => Option.none
+      .ok { s with stack := .mac name names s.code offset closure (flags / 2 % 2 = 1) :: r }.next
+  | .ret, _ =>
+      match s.calls with
+      | ret :: calls =>
+        if ret.kind = .macroCall then
+          .ok { s with calls := calls, code := ret.code, pc := ret.pc, frames := ret.frames, outs := ret.outs,
+                       stack := .str s.output :: ret.stack }
+        else .error .stack
+      | [] => .error (.unsupported "Return outside a macro")
+  | .callFunction name argc, st =>
+      match callArgs st argc with
+      | Option.none => .error .stack
+      | some (args, r) =>
+        match s.lookup? name with
+        | some f => callValue ops s r f args
+        | Option.none => .error (.other "UnknownFunction")     -- globals are handled in `stepC`
+  | .callObject argc, st =>
+      match callArgs st argc with
+      | some (f :: args, r) => callValue ops s r f args
+      | _ => .error .stack
+  | .callMethod name argc, st =>
+      match callArgs st argc with
+      | some (recv :: args, r) =>
+        match recv with
+        | .loopRef h => loopMethod s r h name args
+        | .mac .. | .kwargs _ => .error (.unsupported "method of a macro")
+        | .map kvs => match V.mapGet kvs name with
+          | some (.mac ..) => .error (.unsupported "macro stored in a map")
+          | some _ => .error .invalidOperation
+          | Option.none => match ops.method name recv args with
+            | .error e => .error e
+            | .ok v => .ok { s with stack := v :: r }.next
+        | recv => match ops.method name recv args with
+          | .error e => .error e
+          | .ok v => .ok { s with stack := v :: r }.next
+      | _ => .error .stack
+  | .include_ ignoreMissing, name :: r =>
+      match name with
+      | .str n =>
+        match P.templates.find? (fun p => p.1 == n) with
+        | some (_, code) =>
+          match s.frames with
+          | f :: fr =>
+            .ok { s with
+              calls := { kind := .includeCall, code := s.code, pc := s.pc + 1, stack := r, closure := f.closure } :: s.calls
+              code := code, pc := 0, stack := []
+              frames := { f with closure := Option.none } :: fr }
+          | [] => .error .stack
+        | Option.none =>
+          if ignoreMissing then .ok { s with stack := r }.next else .error (.other "TemplateNotFound")
+      | .seq _ | .iter _ => .error (.unsupported "include of a list of names")
+      | _ => .error .invalidOperation
   | .unsupported n, _ => .error (.unsupported ("instruction " ++ n))
   | _, _ => .error .stack
 
@@ -669,35 +542,107 @@ def St.emitVia (s : St) (r : List V) (v : V) : St :=
 /-- `Instruction::Emit`: the default formatter tests `strict_undefined` inline, a custom one goes
     through `Environment::format`, which fails, hands the value to the formatter, or (no such row
     in the pinned source) returns without calling it -/
-def stepEmit (m : Mode) (s : St) : Except Err St :=
+def emitC (s : St) : Comp St :=
   match s.stack with
   | v :: r =>
-    if s.formatter = 0 then
-      match emitChk m v.kind with
-      | .error e => .error e
-      | .ok _ => .ok (s.emitVia r v)
-    else
-      match envFormat m v.kind with
-      | .error e => .error e
-      | .ok true => .ok (s.emitVia r v)
-      | .ok false => .ok { s with stack := r }.next
-  | [] => .error .stack
+    if s.formatter = 0 then .ask (.emit v.kind) id (fun _ => .pure (s.emitVia r v))
+    else .ask (.envFormat v.kind) id (fun called => .pure (if called then s.emitVia r v else { s with stack := r }.next))
+  | [] => .fail .stack
 
-/-- one instruction of `eval_impl` -/
-def step (m : Mode) (i : Instr) (s : St) : Except Err St :=
+/-- `merge_kwargs`: every source must pass `assert_iterable` and be a map, in order -/
+def mergeKwargsC (acc : List (String × V)) : List V → Comp (List (String × V))
+  | [] => .pure acc
+  | v :: r => .ask (.assertIterable v.kind) id (fun _ =>
+      match v with
+      | .map kvs | .kwargs kvs => mergeKwargsC (kvs.foldl (fun a p => V.mapInsert a p.1 p.2) acc) r
+      | _ => .fail .invalidOperation)
+
+/-- a builtin filter / test / global function applied to `args`; `post` turns the result into
+    what is pushed (`PerformTest` pushes its truth value) -/
+def builtinStep (ops : Ops) (s : St) (kind name : String) (argc : Nat) (post : V → V) (unknown : String) : Comp St :=
+  match callArgs s.stack argc with
+  | Option.none => .fail .stack
+  | some (args, r) =>
+    match callBuiltin ops kind name args with
+    | Option.none =>      -- not a registered builtin: a filter / test the embedding application added
+      let _ := unknown
+      .fail (.unsupported (kind ++ " " ++ name ++ " is not a builtin"))
+    | some c => Comp.bind c (fun v => .pure { s with stack := post v :: r }.next)
+
+/-- **one instruction of `eval_impl`** -/
+def stepC (ops : Ops) (P : Prog) (i : Instr) (s : St) : Comp St :=
+  if (s.stack.take (inspects i)).any V.isOpaque then .fail (.unsupported "opaque operand") else
   match i with
-  | .emit => stepEmit m s
-  | i => match modeGuard m i s with
-    | .error e => .error e
-    | .ok _ => exec i s
+  | .emit => emitC s
+  | .applyFilter name argc => builtinStep ops s "filter" name argc id "UnknownFilter"
+  | .performTest name argc => builtinStep ops s "test" name argc (fun v => .bool v.isTrue) "UnknownTest"
+  | .mergeKwargs n =>
+      match popN n s.stack with
+      | Option.none => .fail .stack
+      | some (vs, r) => Comp.bind (mergeKwargsC [] vs) (fun kvs => .pure { s with stack := .kwargs kvs :: r }.next)
+  | .callFunction name argc =>
+      -- `state.lookup(name)`: the context first, then the globals of the environment
+      if (s.lookup? name).isNone && globalFunctions.contains name then
+        builtinStep ops s "function" name argc id "UnknownFunction"
+      else Comp.ofExcept (exec ops P i s)
+  | i => Comp.bind (Comp.chks (guardQs i s)) (fun _ => Comp.ofExcept (exec ops P i s))
 
-/-- the VM as an instance of the abstract machine: the instruction is fetched by `pc` -/
-def vm (code : Array Instr) : Machine St Err where
-  next s := match code[s.pc]? with
-    | some i => some (fun m s => step m i s)
-    | Option.none => Option.none
+/-- an error inside an included template is reported as `BadInclude` (`perform_include`) -/
+def wrapErr (s : St) (e : Err) : Err :=
+  if s.calls.any (fun r => r.kind = .includeCall) then
+    match e with
+    | .unsupported w => .unsupported w
+    | .outOfFuel => .outOfFuel
+    | _ => .other "BadInclude"
+  else e
+
+/-- the end of an included template: back to the includer -/
+def returnFromInclude (s : St) : Comp St :=
+  match s.calls with
+  | ret :: calls =>
+    if ret.kind = .includeCall then
+      match s.frames with
+      | f :: fr => .pure { s with calls := calls, code := ret.code, pc := ret.pc, stack := ret.stack,
+                                  frames := { f with closure := ret.closure } :: fr }
+      | [] => .fail .stack
+    else .fail .stack
+  | [] => .fail .stack
+
+/-- the step to take in state `s` (as a `Comp`: it does not see the mode), `none` = finished -/
+def nextC (ops : Ops) (P : Prog) (s : St) : Option (Comp St) :=
+  match (P.codes[s.code]?).bind (fun c => c[s.pc]?) with
+  | some i => some ((stepC ops P i s).mapErr (wrapErr s))
+  | Option.none => if s.calls.isEmpty then Option.none else some (returnFromInclude s)
+
+/-- one instruction under mode `m` -/
+def step (ops : Ops) (P : Prog) (m : Mode) (i : Instr) (s : St) : Except Err St := (stepC ops P i s).run m
+
+/-- the VM as an instance of the abstract machine -/
+def vm (ops : Ops) (P : Prog) : Machine St Err where
+  next s := (nextC ops P s).map (fun c => fun m _ => c.run m)
   timeout := .outOfFuel
 
-def runVm (code : Array Instr) (m : Mode) (fuel : Nat) (s : St) : Except Err St := (vm code).run m fuel s
+def runVm (ops : Ops) (P : Prog) (m : Mode) (fuel : Nat) (s : St) : Except Err St := (vm ops P).run m fuel s
+
+/-- a single template without includes -/
+def Prog.single (code : Array Instr) : Prog := { codes := #[code] }
+
+end MJ.Undef
+
+namespace MJ.Undef
+
+/-- the model gives the instruction a semantics (concretely, or through the parameters `Ops`):
+    it is not one of the instructions the serialiser marks as outside the model, a loop is not
+    recursive, and a filter / test is a registered builtin whose extracted signature consists of
+    argument types the extracted `ArgType` table knows -/
+def Instr.inFragment : Instr → Bool
+  | .unsupported _ => false
+  | .applyFilter n _ => sigKnown "filter" n
+  | .performTest n _ => sigKnown "test" n
+  | .pushLoop flags => flags / 2 % 2 = 0
+  | _ => true
+
+/-- decidable check on a real compiled instruction stream (evaluated by the driver per program) -/
+def Prog.inFragment (P : Prog) : Bool := P.codes.toList.all (fun c => c.toList.all Instr.inFragment)
 
 end MJ.Undef
